@@ -134,3 +134,15 @@ pub fn rand_mag(r: &mut Rng, maxk: u64) -> u128 {
     let k = r.below(maxk) as u32;
     amount_mag(r, k)
 }
+
+/// pools for histories: mostly 6 / 18 decimals
+pub fn gen_pool_hist(r: &mut Rng, stable: bool) -> PoolInfo {
+    let mut p = gen_pool(r, stable);
+    if !r.chance(1, 6) {
+        let choices: [u8; 6] = [6, 6, 18, 18, 8, 12];
+        let same = r.chance(1, 2);
+        let d0 = choices[r.below(6) as usize];
+        for d in p.asset_decimals.iter_mut() { *d = if same { d0 } else { choices[r.below(6) as usize] }; }
+    }
+    p
+}
